@@ -7,6 +7,7 @@ pub mod pool;
 pub mod profiles;
 pub mod shim;
 pub mod sweeps;
+pub mod tlalloc;
 
 pub fn init() {
     shim::install();
